@@ -72,10 +72,12 @@ class C02(Prop):
             "AllocAndPack and decoded back (2 operations per value); plus accepted non-canonical byte strings through "
             "decode->encode->decode. distinct = distinct rendered values / frames.")
     technique = "Lean 4 proof (round-trip calculus Parses/ParsesAll over the slice-level decoders) + decide on regenerated dispatch tables + differential correspondence"
-    level_text = ("Theorems: decode(encode v) = v with the whole encoding accepted, for every cEMI message kind and every "
-                  "service type except SearchRes/DescriptionRes (_partial: those two are covered by correspondence + oracle "
-                  "only), under explicit decidable encodability predicates; dispatch/constant tables regenerated from source "
-                  "and decided by the kernel. Tie: real AllocAndPack/Unpack vs model on the same values, full bytes and values.")
+    level_text = ("Theorems: decode(encode v) = v with the whole encoding accepted, for every cEMI message kind and EVERY "
+                  "service type - search/description requests and responses (device block, family list of any admissible "
+                  "length, description-block loop), connection services, tunnelling and routing frames, unknown services - "
+                  "under explicit decidable encodability predicates (Service.ok / Cemi.ok); dispatch/constant tables "
+                  "regenerated from source and decided by the kernel. Tie: real AllocAndPack/Unpack vs model on the same "
+                  "values, full bytes and values.")
 
 
 class C06(Prop):
